@@ -139,6 +139,11 @@ func c02RoundTrip(c *mon.Ctx, mkDiff func() jd.Diff, panel []string, renderOpts 
 		c.Violation("rendered diff is rejected by ReadDiffString: "+err.Error(), extra)
 		return false
 	}
+	if m := sharedContainer(d2); m != "" {
+		c.Violation("the diff read from text shares storage between two of its values ("+m+"): a document patched with it holds one container twice, and a later patch of one place changes the other", extra)
+		return false
+	}
+	c.Feature("read_diff_storage_checked")
 	if c.Index%6 == 0 && c.WorkDir != "" {
 		fn := filepath.Join(c.WorkDir, "d.diff")
 		if os.WriteFile(fn, []byte(t), 0o644) == nil {
@@ -179,6 +184,17 @@ func c02RoundTrip(c *mon.Ctx, mkDiff func() jd.Diff, panel []string, renderOpts 
 	}
 	if tc != t {
 		c.Feature("colour_codes_present")
+	}
+	for _, x := range panel {
+		var P jd.JsonNode
+		var perr error
+		if pan := mon.Safe(func() { P, perr = ReadJ(x).Patch(d2) }); pan == "" && perr == nil && P != nil {
+			if m := sharedContainer(P); m != "" {
+				extra["document"] = x
+				c.Violation("a freshly parsed document patched with a freshly read diff holds one container at two places ("+m+")", extra)
+				return false
+			}
+		}
 	}
 	o1, o2 := patchOutcome(mkDiff(), panel), patchOutcome(d2, panel)
 	for i := range panel {
